@@ -34,7 +34,26 @@ type Failure struct {
 }
 
 // Go registers a managed thread; it starts when the scheduler first picks it.
-func (x *X) Go(name string, f func()) { GoNamed(name, f) }
+func (x *X) Go(name string, f func()) {
+	x.s.mu.Lock()
+	x.s.holdSetupThreads = true
+	x.s.mu.Unlock()
+	GoNamed(name, f)
+	x.s.mu.Lock()
+	x.s.holdSetupThreads = false
+	x.s.mu.Unlock()
+}
+
+// BackgroundSetup makes goroutines that the code under test starts during the
+// set-up phase (e.g. a transport's reader and writer loops) run immediately,
+// un-scheduled, instead of waiting for the scheduler; they are registered and
+// park at their first scheduling point once exploration begins, and are not
+// required to finish. Call it first in the scenario body.
+func (x *X) BackgroundSetup() {
+	x.s.mu.Lock()
+	x.s.bgSetup = true
+	x.s.mu.Unlock()
+}
 
 // OnStuck installs an environment action tried when no thread is enabled.
 func (x *X) OnStuck(f func() bool) { x.onStuck = f }
@@ -146,6 +165,7 @@ func RunOnce(t *testing.T, cfg Config, prefix []int, wantTrace bool) (res ExecRe
 		// is registered so that shims called during set-up do not park.
 		s.setup = true // set-up phase: shims pass through, x.Go registers threads
 		cfg.Body(x)
+		synctest.Wait() // background goroutines started during set-up come to rest
 		s.mu.Lock()
 		s.setup = false
 		s.mu.Unlock()
